@@ -16,7 +16,8 @@ EXPLANATION = (
     "empty, get_healthy passes `== Healthy` and get_usable passes is_usable, whose table is {Healthy, Degraded}; "
     "(CURSOR) every round-robin selection performs exactly one atomic read-modify-write on the cursor and no other "
     "write, and indexes the eligible list modulo its non-zero length; (SHARE) clones of a context share its state, "
-    "so the check task and the selectors see one status.")
+    "so the check task and the selectors see one status."
+    ' (COUNT-ONCE) from one recorder call no second recorder call is reachable for the same check result.')
 RULE = "one obligation per set_status site, per record function, per selector clause, per cursor write"
 TRUSTED = ["std::sync::RwLock", "tokio::time::timeout", "std atomics"]
 ASSUMPTIONS = ["thresholds >= 1"]
